@@ -5,6 +5,7 @@ import Model.C15.Wire
 import Model.C15.Text
 import Model.C15.Eval
 import Model.C15.Bounds
+import Model.C15.Satisfy
 import Generated.Miniscript
 open Btc Btc.Miniscript Btc.Miniscript.Wire
 
@@ -38,6 +39,20 @@ def handle : List String → String
   | "bounds" :: ctx :: toks => withMs ctx toks fun c n =>
     let b (x : Bool) := if x then "True" else "False"
     s!"ok ops={renderOB (maxOps c n)} stack={renderOI (maxStackItems c n)} exec={renderOI (maxExecStackItems c n)} wit={renderOB (maxWitnessSize c n)} limits={b (withinLimits c n)} sane={b (isSane c n)} dup={b (hasDup (keysOf n))}"
+  | "sat" :: ctx :: sigs :: pre :: lt :: sq :: ver :: toks =>
+    -- sigs `key:sig,…|-`; pre `kind:digest:preimage,…|-`; then nLockTime, nSequence, version
+    let pres : Option (List (HashKind × Bytes × Bytes)) :=
+      if pre == "-" then some [] else (pre.splitOn ",").mapM fun e =>
+        match e.splitOn ":" with
+        | [k, d, p] => do pure ((← hashOf? k), (← fromHex? d), (← fromHex? p))
+        | _ => none
+    match readTable sigs, pres, lt.toNat?, sq.toNat?, ver.toNat? with
+    | some sg, some ps, some l, some q, some v => withMs ctx toks fun c n =>
+      match satisfy c ⟨sg, ps, l, q, v⟩ n with
+      | .ok w => "ok " ++ (if w.isEmpty then "-" else ",".intercalate (w.map toHex))
+      | .error .none => "err none"
+      | .error .malleable => "err malleable"
+    | _, _, _, _, _ => "bad-op"
   | "exec" :: ctx :: sigs :: wit :: toks =>
     -- sigs: `key:sig,…` (the signatures that verify); wit: the witness stack, bottom first, `,`-separated
     match readTable sigs, (if wit == "-" then some [] else (wit.splitOn ",").mapM fromHex?) with
